@@ -45,7 +45,7 @@ def probe_all(ctx, s, keys, true, where):
     for k in live:
         for c in set(cellmap[k]):
             usage[c] += 1
-    for k in keys:
+    for k in ctx.alternating(keys):
         est = s.check(k)
         ctx.counters["oracle_evaluations"] += 1
         if est < true[k]:
